@@ -56,7 +56,7 @@ def scan_sites():
     return sites
 
 
-HARNESSED = {'shannon_entropy', 'mutual_information', 'assign_to_nearest_center', 'distribute_frame', '_row_normalize'}
+HARNESSED = {'shannon_entropy', 'mutual_information', 'weighted_mi', 'assign_to_nearest_center', 'distribute_frame', '_row_normalize'}
 
 
 def jobs(tier):
@@ -71,6 +71,9 @@ def jobs(tier):
             add('entropy_job', 'shannon_entropy[n=%d,zeros=%d,normalize=%s]' % (n, z, norm), n=n, zeros=z, normalize=norm)
     add('mi_garbage_job', 'mutual_information[all-pairs-observed]', empty_pair=False)
     add('mi_garbage_job', 'mutual_information[one-pair-unobserved]', empty_pair=True)
+    add('weighted_mi_job', 'weighted_mi[3 frames,states 2/2]', features=[[0, 0], [1, 1], [0, 1]], n_states=(2, 2))
+    add('weighted_mi_job', 'weighted_mi[3 frames,states 2/3, one state never taken]', features=[[0, 0], [1, 2], [0, 2]], n_states=(2, 3))
+    add('weighted_mi_job', 'weighted_mi[3 features, states 2/3/2]', features=[[0, 0, 1], [1, 2, 0], [0, 2, 1]], n_states=(2, 3, 2))
     for n in (2, 3):
         for which in ('normalize', 'transpose'):
             J.append(dict(module='harness.C04', func='builder_job', name='%s[n=%d,zero rows allowed]' % (which, n),
